@@ -8,6 +8,7 @@ from .. import paths, waiters
 from ..core import FUNC, call_attr, calls_in, const, dotted, kwarg, is_const, norm, text, walk_local
 
 EXPLANATION = [
+    "C09.identity: no `is` / `is not` comparison in the anchored modules has an operand declared as a number, byte string or string (identity of equal integers holds only inside CPython's small-integer cache, so such a test is right for values up to 256 and wrong afterwards).",
     'C09.listeners: the channel manager subscribes to the host\'s disconnection event with on(), not once(): every lost link, not just the first, triggers the table clean-up.',
     'C09.stale-loopvar: no comprehension or generator expression in bumble.l2cap reads the variable of a `for` loop that has already finished (it would be the last item for every element): table registrations built from a list of channels key each channel by its own identifiers.',
     'C09.cid-domain: every keyed access (subscript, get/pop, membership, set intersection) to a per-connection channel table uses a key of that table\'s numbering: `channels` own-allocated identifiers (find_free_*, channel.source_cid), `le_coc_channels` peer-allocated ones (request.source_cid in a request handler, *.destination_cid); no method replaces a per-connection table as a whole.',
